@@ -170,6 +170,27 @@ example :
         = .actionError (some 714) (some 500) := by
   decide +kernel
 
+/-- The domain of `call_roundtrip` is "names distinct per action **and direction**": `hnd` speaks of
+    the in-arguments only and `ValsOk` looks results up among the out-arguments only, so an action
+    may use one name for an in- and an out-argument (`UpnpAction.argument(name, direction)`), bound
+    to different variables.  Non-vacuity on exactly that shape: `Volume` goes in as a `ui2` and comes
+    out as a string, `Channel` the other way round; the served SCPD is read back with both arguments
+    of each name, the handler sees the integer, the caller gets the string. -/
+example :
+    let vN : VarDef := ⟨"Vol".toList, "ui2".toList, false, some "0".toList, some "100".toList, none, none⟩
+    let vS : VarDef := ⟨"Txt".toList, "string".toList, false, none, none, none, none⟩
+    let act : SAct := ⟨"SetVolume".toList, [⟨"Volume".toList, vN⟩, ⟨"Channel".toList, vS⟩],
+                                            [⟨"Volume".toList, vS⟩, ⟨"Channel".toList, vN⟩]⟩
+    let args : List (Str × Val) := [("Volume".toList, .int 7), ("Channel".toList, .str "L".toList)]
+    let vals : List (Str × Val) := [("Volume".toList, .str "seven".toList), ("Channel".toList, .int 7)]
+    let stype := "urn:schemas-upnp-org:service:S0:1".toList
+    (act.ins.map (·.name)).Nodup
+    ∧ (parseScpd [] (serializeScpd [] [vN, vS] [act])).map (fun p => (p.1, p.2.map actViewOf))
+        = some ([vN, vS].map (clientVarOf []), [actViewOf (cactOf [] act)])
+    ∧ handlerInput [] [act] (reqOf stype act args) = some ("SetVolume".toList, args)
+    ∧ clientCall [] stype (cactOf [] act) (serverHandle [] stype [act] (fun _ _ => .ret vals)) args = .ok vals := by
+  decide +kernel
+
 /-! ### description -/
 
 /-- **The served description of a state variable is parsed by the client into a model equal to the
